@@ -4,7 +4,22 @@
    xml s|k <codec|-> <tree>            -> hex(UTF-8) of the characters of the model's XMLConverter output
    spectext <tree>                     -> hex(UTF-8) of Spec text
    xmlcheck s|k <codec|-> <tree>       -> ok | bad   (Lean reader on the MODEL output = skeleton)
+   skelstrip s|k <tree>                -> ok | bad   (instance of C11_skeleton_strip: skeleton with strip = skeleton of `stripPage`d tree)
    parse s|k <hex utf-8> <tree>        -> ok | bad:<why>  (Lean reader on the IMPLEMENTATION output = skeleton)
+
+   textpn 0|1 <tree>                   -> the same for a TextConverter constructed with showpageno = 0|1
+   spectextpn 0|1 <tree>               -> hex(UTF-8) of `specTextPn`
+   textraw 0|1 <tree>                  -> hex(UTF-8) of the right-hand side of `C11_text_raw` | boxes (tree has a text box)
+   fmt.pts (<+|-> <p/q> <+|-> <p/q>)*  -> the regenerated `LTCurve.get_pts`
+
+   textbin <codec> 0|1 <tree>          -> hex of the BYTES the model's binary sink receives from TextConverter (error
+                                          policy ignore; showpageno 0|1) through the codec state machine | bad-op (codec not modelled)
+   xmlbin <codec> s|k <tree>           -> the same for XMLConverter (strict) | encode-error
+   utf32dec <hex> / utf16dec <hex>     -> hex(UTF-8) of `utf32Decode` / `utf16Decode` (the decoders of C11_sink_utf32 / _utf16) | undecodable
+
+   csname <str>                        -> in | out   (membership in the regenerated table of colour-space names)
+   esc.enc <str>  esc.attr s|k <str>  esc.text s|k <str>   -> hex(UTF-8) of the model's utils.enc / XMLConverter.attr / write_text
+   esc.unesc <hex utf-8>               -> hex(UTF-8) of `unescAny` (references replaced, nothing else) | bad-reference
 
    fmt.f3 <+|-> <p/q>   fmt.d <+|-> <p/q>   fmt.bbox (<+|-> <p/q>)x4   -> the formatted number(s)
 
@@ -12,6 +27,7 @@
    tools/harness/props/c11.py `node_words`. -/
 import PdfVerif.Spec.Xml
 import PdfVerif.Gen.ConvertFmt
+import PdfVerif.Model.ConvertCodec
 
 open PdfVerif PdfVerif.Convert PdfVerif.Xml
 
@@ -130,6 +146,23 @@ def srat (sg q : String) : Option SRat :=
   | some r => if sg == "-" then some (true, r) else if sg == "+" then some (false, r) else none
   | none => none
 
+/-- the binary sink of the model for a named codec (the concrete state machines of Model/ConvertCodec.lean) -/
+def binSink (name : String) (ignore : Bool) (writes : List Str) : Option (Option Bytes) :=
+  match name with
+  | "utf-32" => some (sinkBinary utf32Codec ignore writes)
+  | "utf-16" => some (sinkBinary (utf16Codec true false) ignore writes)
+  | "utf-16-le" => some (sinkBinary (utf16Codec false false) ignore writes)
+  | "utf-16-be" => some (sinkBinary (utf16Codec false true) ignore writes)
+  | "utf-8" => some (sinkBinary (utf8Codec false) ignore writes)
+  | "utf-8-sig" => some (sinkBinary (utf8Codec true) ignore writes)
+  | "latin-1" => some (sinkBinary latin1Codec ignore writes)
+  | _ => none
+
+def showBin : Option (Option Bytes) → String
+  | some (some bs) => if bs.isEmpty then "-" else hexOfBytes bs
+  | some none => "encode-error"
+  | none => "bad-op"
+
 def step (line : String) : String :=
   match words line with
   | ["fmt.f3", sg, q] =>
@@ -144,6 +177,54 @@ def step (line : String) : String :=
     match srat s0 q0, srat s1 q1, srat s2 q2, srat s3 q3 with
     | some a, some b, some c, some d => String.ofList (PdfVerif.Gen.ConvertFmt.bbox2str a b c d)
     | _, _, _, _ => "bad-op"
+  | "fmt.pts" :: ws =>
+    let rec go : List String → Option (List (SRat × SRat))
+      | [] => some []
+      | s0 :: q0 :: s1 :: q1 :: rest =>
+        match srat s0 q0, srat s1 q1, go rest with
+        | some a, some b, some r => some ((a, b) :: r)
+        | _, _, _ => none
+      | _ => none
+    match go ws with
+    | some pts => let r := PdfVerif.Gen.ConvertFmt.get_pts pts; if r.isEmpty then "-" else String.ofList r
+    | none => "bad-op"
+  | "textbin" :: name :: pn :: tree =>
+    match parsePages tree with
+    | some ps => showBin (binSink name true (textDocWritesPn (pn == "1") ps))
+    | none => "bad-op"
+  | "xmlbin" :: name :: sf :: tree =>
+    match stripFlag sf, parsePages tree with
+    | some strip, some ps => showBin (binSink name false (xmlDocWrites strip (some name.toList) ps))
+    | _, _ => "bad-op"
+  | "utf32dec" :: hx :: [] =>
+    match bytesOfHex hx with
+    | some bs =>
+      match utf32Decode bs with
+      | some s => hexOfStr s
+      | none => "undecodable"
+    | none => "bad-op"
+  | "utf16dec" :: hx :: [] =>
+    match bytesOfHex hx with
+    | some bs =>
+      match utf16Decode bs with
+      | some s => hexOfStr s
+      | none => "undecodable"
+    | none => "bad-op"
+  | "textpn" :: pn :: tree =>
+    match parsePages tree with
+    | some ps => hexOfStr (sinkText (textDocWritesPn (pn == "1") ps))
+    | none => "bad-op"
+  | "spectextpn" :: pn :: tree =>
+    match parsePages tree with
+    | some ps => hexOfStr (specTextPn (pn == "1") ps)
+    | none => "bad-op"
+  | "textraw" :: pn :: tree =>
+    match parsePages tree with
+    | some ps =>
+      if ps.all (fun p => noBoxL p.kids) then
+        hexOfStr (ps.flatMap (fun p => specPageHeader (pn == "1") p ++ glyphTextL p.kids ++ ['\x0c']))
+      else "boxes"
+    | none => "bad-op"
   | "text" :: tree =>
     match parsePages tree with
     | some ps => hexOfStr (sinkText (textDocWrites ps))
@@ -156,6 +237,37 @@ def step (line : String) : String :=
     match stripFlag sf, codecOf cw, parsePages tree with
     | some strip, some codec, some ps => hexOfStr (sinkText (xmlDocWrites strip codec ps))
     | _, _, _ => "bad-op"
+  | ["csname", w] =>
+    match strOfCps w with
+    | some t => if PdfVerif.Gen.ConvertFmt.colourSpaceNames.contains t then "in" else "out"
+    | none => "bad-op"
+  | ["esc.enc", w] =>
+    match strOfCps w with
+    | some t => hexOfStr (enc t)
+    | none => "bad-op"
+  | ["esc.attr", sf, w] =>
+    match stripFlag sf, strOfCps w with
+    | some strip, some t => hexOfStr (attr strip t)
+    | _, _ => "bad-op"
+  | ["esc.text", sf, w] =>
+    match stripFlag sf, strOfCps w with
+    | some strip, some t => hexOfStr (writeText strip t)
+    | _, _ => "bad-op"
+  | ["esc.unesc", hx] =>
+    match (if hx == "-" then some [] else bytesOfHex hx) with
+    | some bs =>
+      match String.fromUTF8? (ByteArray.mk bs.toArray) with
+      | some doc =>
+        match unescAny doc.toList with
+        | some t => hexOfStr t
+        | none => "bad-reference"
+      | none => "bad-op"
+    | none => "bad-op"
+  | "skelstrip" :: sf :: tree =>
+    match stripFlag sf, parsePages tree with
+    | some strip, some ps =>
+      if nodeEq (docSkeleton strip ps) (docSkeleton false (ps.map (stripPage strip))) then "ok" else "bad:differs"
+    | _, _ => "bad-op"
   | "xmlcheck" :: sf :: cw :: tree =>
     match stripFlag sf, codecOf cw, parsePages tree with
     | some strip, some codec, some ps =>
